@@ -4,6 +4,7 @@ to code or run. Third-party headers that are not installed (xtensor, date) are r
 declarations in /verif/cxxstubs; only bodies of functions defined in /repo are inspected.
 """
 import json
+import re
 import os
 import subprocess
 
@@ -151,6 +152,10 @@ def txt(n):
     if k in ("CallExpr", "CXXMemberCallExpr", "CXXOperatorCallExpr"):
         if not inner:
             return "call()"
+        if k == "CXXOperatorCallExpr" and len(inner) == 3:
+            opn = txt(inner[0])
+            if opn.startswith("operator") and opn[len("operator"):] in ("==", "!=", "<", "<=", ">", ">="):
+                return "%s %s %s" % (txt(inner[1]), opn[len("operator"):], txt(inner[2]))
         return "%s(%s)" % (txt(inner[0]), ", ".join(txt(a) for a in inner[1:]))
     if k == "UnresolvedLookupExpr" or k == "UnresolvedMemberExpr" or k == "CXXDependentScopeMemberExpr":
         nm = n.get("name") or n.get("member")
@@ -867,6 +872,212 @@ def rule_reader_overwrites(out, tier):
             out.bad(rid, key, "%s:%d" % (rel, at), why)
 
 
+# -------------------------------------------------------------------------------------
+# Path conditions of (simple) C++ functions: every path as its literals (condition text, value),
+# events (calls, increments/decrements, throws) in order and outcome. Free functions of the same
+# header called with the tracked arguments are expanded in place; locals initialised once are
+# substituted in condition texts. Loops are taken zero times or once.
+# -------------------------------------------------------------------------------------
+
+class CxxPath:
+    def __init__(self, lits=None, events=None, outcome="fall", env=None, ret=None):
+        self.lits = lits or []      # (text, bool)
+        self.events = events or []  # (kind, text, number of literals known)
+        self.outcome = outcome      # fall | return | throw
+        self.env = env or {}
+        self.ret = ret
+
+    def ext(self, lits=None, events=None, outcome=None, env=None, ret=None):
+        return CxxPath(self.lits + (lits or []), self.events + (events or []), outcome or self.outcome, dict(self.env, **(env or {})), ret if ret is not None else self.ret)
+
+    def expand(self, t):
+        for _ in range(3):
+            new = t
+            for name, val in self.env.items():
+                new = re.sub(r"(?<![\w.:])%s(?![\w(])" % re.escape(name), "(" + val + ")", new)
+            if new == t:
+                break
+            t = new
+        return t
+
+    def facts(self, upto=None):
+        """normalised comparisons known on the path: (left, op, right) with op in == != < <= > >=, value folded in"""
+        res = []
+        neg = {"==": "!=", "!=": "==", "<": ">=", ">=": "<", ">": "<=", "<=": ">"}
+        for t, val in self.lits[:upto]:
+            for raw in (t, self.expand(t)):
+                u = raw.strip()
+                while u.startswith("(") and u.endswith(")") and _balanced(u[1:-1]):
+                    u = u[1:-1].strip()
+                m = re.match(r"^(.*?) (==|!=|<=|>=|<|>) (.*)$", u)
+                if m and _balanced(m.group(1)) and _balanced(m.group(3)):
+                    op = m.group(2) if val else neg[m.group(2)]
+                    res.append((m.group(1).strip(), op, m.group(3).strip()))
+                else:
+                    res.append((u, "true" if val else "false", ""))
+        return res
+
+    def knows_equal(self, marker, upto=None):
+        return any(op == "==" and (marker in a or marker in b) for a, op, b in self.facts(upto))
+
+    def knows_zero(self, var, upto=None):
+        for a, op, b in self.facts(upto):
+            a2, b2 = a.replace(" ", "").strip("()"), b.replace(" ", "").strip("()")
+            if op == "==" and ((a2 == var and b2 in ("0", "0U")) or (b2 == var and a2 in ("0", "0U"))):
+                return True
+            if op == "false" and a2 == var:
+                return True
+        return False
+
+
+def _balanced(s):
+    d = 0
+    for ch in s:
+        if ch == "(":
+            d += 1
+        elif ch == ")":
+            d -= 1
+            if d < 0:
+                return False
+    return d == 0
+
+
+class CxxPaths:
+    def __init__(self, funcs, limit=256):
+        self.funcs = funcs  # name -> decl (free functions that may be expanded)
+        self.limit = limit
+        self.overflow = False
+
+    def split(self, cond, val):
+        k = cond.get("kind")
+        inner = [c for c in (cond.get("inner") or []) if isinstance(c, dict)]
+        if k in ("ImplicitCastExpr", "ParenExpr", "ExprWithCleanups", "MaterializeTemporaryExpr") and inner:
+            return self.split(inner[-1], val)
+        if k == "UnaryOperator" and cond.get("opcode") == "!" and inner:
+            return self.split(inner[0], not val)
+        if k == "BinaryOperator" and cond.get("opcode") == "&&" and val:
+            return self.split(inner[0], True) + self.split(inner[1], True)
+        if k == "BinaryOperator" and cond.get("opcode") == "||" and not val:
+            return self.split(inner[0], False) + self.split(inner[1], False)
+        return [(txt(cond), val)]
+
+    def expr_events(self, n, nl, depth, path):
+        """events of an expression in evaluation order; calls of expandable helpers return their paths instead"""
+        evs = []
+
+        def visit(x):
+            k = x.get("kind")
+            inner = [c for c in (x.get("inner") or []) if isinstance(c, dict)]
+            if k == "LambdaExpr":
+                return
+            if k == "CXXThrowExpr":
+                evs.append(("throw", txt(x), nl))
+                return
+            if k in ("CallExpr", "CXXMemberCallExpr", "CXXOperatorCallExpr"):
+                for ch in inner[1:]:
+                    visit(ch)
+                evs.append(("call", txt(x), nl))
+                return
+            if k == "UnaryOperator" and x.get("opcode") in ("--", "++"):
+                evs.append(("step", txt(x).replace(" ", ""), nl))
+            if k == "CompoundAssignOperator":
+                evs.append(("step", txt(x).replace(" ", ""), nl))
+            if k == "BinaryOperator" and x.get("opcode") == "=":
+                evs.append(("assign", txt(x), nl))
+            for ch in inner:
+                visit(ch)
+
+        visit(n)
+        return evs
+
+    def helper_call(self, st):
+        """a statement that is just a call of an expandable free function: (decl, call node)"""
+        x = st
+        while x.get("kind") in ("ExprWithCleanups", "ImplicitCastExpr", "ParenExpr") and x.get("inner"):
+            x = x["inner"][-1]
+        if x.get("kind") == "CallExpr":
+            name = callee_name(x).split("::")[-1]
+            if name in self.funcs:
+                return self.funcs[name], x
+        return None, None
+
+    def block(self, stmts, start, depth):
+        paths = [start]
+        for st in stmts:
+            nxt = []
+            for p in paths:
+                if p.outcome != "fall":
+                    nxt.append(p)
+                else:
+                    nxt += self.stmt(st, p, depth)
+            paths = nxt
+            if len(paths) > self.limit:
+                self.overflow = True
+                return paths[: self.limit]
+        return paths
+
+    def stmt(self, n, p, depth):
+        k = n.get("kind")
+        inner = [c for c in (n.get("inner") or []) if isinstance(c, dict)]
+        nl = len(p.lits)
+        if k == "CompoundStmt":
+            return self.block(inner, p, depth)
+        if k == "IfStmt":
+            # inner: [init?] cond then [else]; clang lists cond first unless there is an init statement / condition variable
+            parts = inner
+            if n.get("hasInit") or n.get("hasVar"):
+                parts = inner[1:] if n.get("hasInit") else inner
+            cond = parts[0]
+            then = parts[1] if len(parts) > 1 else None
+            els = parts[2] if len(parts) > 2 else None
+            base = p.ext(events=self.expr_events(cond, nl, depth, p))
+            res = []
+            for val, body in ((True, then), (False, els)):
+                q = base.ext(lits=self.split(cond, val))
+                res += self.stmt(body, q, depth) if body is not None else [q]
+            return res
+        if k in ("ForStmt", "WhileStmt", "CXXForRangeStmt", "DoStmt"):
+            body = inner[-1] if inner else None
+            once = self.stmt(body, p, depth) if body is not None else [p]
+            return once + [p]
+        if k == "ReturnStmt":
+            q = p.ext(events=self.expr_events(n, nl, depth, p), outcome="return", ret=txt(inner[0]) if inner else "")
+            return [q]
+        if k == "DeclStmt":
+            q = p
+            for d in inner:
+                if d.get("kind") == "VarDecl":
+                    init = [c for c in (d.get("inner") or []) if isinstance(c, dict) and c.get("kind") not in ("FullComment",)]
+                    if init:
+                        q = q.ext(events=self.expr_events(init[-1], nl, depth, q), env={d.get("name", "?"): txt(init[-1])})
+            return [q]
+        # expression statement: expandable helper?
+        fn, call = self.helper_call(n)
+        if fn is not None and depth < 3:
+            params = [c.get("name") for c in params_of(fn)]
+            args = [txt(a) for a in (call.get("inner") or [])[1:]]
+            env = {}
+            for prm, a in zip(params, args):
+                if prm and prm != a:
+                    env[prm] = a
+            res = []
+            b = body_of(fn)
+            for q in self.block([c for c in (b.get("inner") or []) if isinstance(c, dict)], p.ext(env=env), depth + 1):
+                res.append(CxxPath(q.lits, q.events, "fall" if q.outcome in ("fall", "return") else q.outcome, q.env, p.ret))
+            return res
+        evs = self.expr_events(n, nl, depth, p)
+        if any(e[0] == "throw" for e in evs):
+            return [p.ext(events=evs, outcome="throw")]
+        # a plain assignment of a local keeps the substitution current
+        return [p.ext(events=evs)]
+
+    def paths(self, fn):
+        b = body_of(fn)
+        if b is None:
+            return []
+        return self.block([c for c in (b.get("inner") or []) if isinstance(c, dict)], CxxPath(), 0)
+
+
 def rule_cxx_header(out, tier):
     rid = "SR3"
     out.rule(rid, "header.h: WriteHeader writes magic, fixed-width version, schema; ReadHeader compares the magic bytes and the version with `!=` and throws on mismatch "
@@ -878,11 +1089,14 @@ def rule_cxx_header(out, tier):
         return
     for r in roots:
         annotate_lines(r)
+    with open(os.path.join(out.repo, BIN, "header.h")) as f:
+        _SRC[0] = f.read()
     fns = dict(free_functions(roots))
     wh, rh = fns.get("WriteHeader"), fns.get("ReadHeader")
     if wh is None or rh is None:
         out.undecided(rid, "WriteHeader/ReadHeader", rel, "functions not found")
         return
+    helpers = {k: v for k, v in fns.items() if k not in ("WriteHeader", "ReadHeader") and not k.startswith(("Write", "Read"))}
     wops = []
     for x in walk(body_of(wh)):
         if x.get("kind") in ("CXXMemberCallExpr", "CallExpr"):
@@ -893,32 +1107,35 @@ def rule_cxx_header(out, tier):
                 wops.append(nm + "(" + what + ")")
     okw = wops == ["WriteBytes(MAGIC_BYTES)", "WriteFixedInteger(kBinaryFormatVersionNumber)", "WriteString(schema)"]
     out.check(okw, rid, "WriteHeader/order", "%s:%d" % (rel, wh.get("_line", 0)), "magic, version, schema: " + " ".join(wops), "header is not written as magic, version, schema: " + " ".join(wops))
-    # ReadHeader: statements in order
-    seq = []
-    for st in body_of(rh).get("inner", []) or []:
-        k = st.get("kind")
-        t = json.dumps(st)
-        if k == "IfStmt":
-            cond = (st.get("inner") or [{}])[0]
-            ct = txt(cond)
-            throws = any(x.get("kind") == "CXXThrowExpr" for x in walk(st["inner"][1]))
-            op = None
-            for x in walk(cond):
-                if x.get("kind") in ("BinaryOperator", "CXXOperatorCallExpr"):
-                    op = x.get("opcode") or txt((x.get("inner") or [{}])[0])
-                    break
-            which = "magic" if "MAGIC_BYTES" in ct or "magic" in ct else "version" if "kBinaryFormatVersionNumber" in ct or "version" in ct else "?"
-            seq.append(("check:" + which, op, throws, st.get("_line", 0)))
-        elif "ReadString" in t:
-            seq.append(("read:schema", None, None, st.get("_line", 0)))
-    order = [s[0] for s in seq]
-    out.check(order == ["check:magic", "check:version", "read:schema"], rid, "ReadHeader/order", "%s:%d" % (rel, rh.get("_line", 0)),
-              "magic check, version check, then the schema is read", "ReadHeader does not check magic and version before reading the schema: " + str(order))
-    for which, op, throws, ln in seq:
-        if which.startswith("check:"):
-            good = throws and op is not None and "!=" in op
-            out.check(good, rid, "ReadHeader/%s compared with != and throws" % which[6:], "%s:%d" % (rel, ln), "mismatch throws",
-                      "the %s test is `%s` (throws=%s), not an inequality test that throws: some foreign headers are accepted" % (which[6:], op, throws))
+    # ReadHeader: on every path that does not throw, the schema is read only after the magic bytes and the
+    # version were found equal to the expected values (whatever the tests look like, helpers expanded)
+    cp = CxxPaths(helpers)
+    ok_paths = [p for p in cp.paths(rh) if p.outcome != "throw"]
+    pos_rh = "%s:%d" % (rel, rh.get("_line", 0))
+    if cp.overflow or not ok_paths:
+        out.undecided(rid, "ReadHeader/paths", pos_rh, "cannot enumerate the paths of ReadHeader")
+    else:
+        order_ok = True
+        for which, marker in (("magic", "MAGIC_BYTES"), ("version", "kBinaryFormatVersionNumber")):
+            good = True
+            for p in ok_paths:
+                upto = None
+                for kind, t, nl in p.events:
+                    if kind == "call" and "ReadString" in t:
+                        upto = nl
+                        break
+                if upto is None:
+                    order_ok = False
+                    continue
+                if not p.knows_equal(marker, upto):
+                    if p.knows_equal(marker):
+                        order_ok = False
+                    else:
+                        good = False
+            out.check(good, rid, "ReadHeader/%s compared with != and throws" % which, pos_rh, "mismatch throws",
+                      "ReadHeader can return without the %s having been found equal to %s: some foreign headers are accepted" % (which, marker))
+        out.check(order_ok, rid, "ReadHeader/order", pos_rh, "magic check, version check, then the schema is read",
+                  "ReadHeader does not check magic and version before reading the schema")
     # BinaryReader constructors
     cls = find_class(roots, "BinaryReader")
     n_ctor, n_ok = 0, 0
@@ -945,36 +1162,58 @@ def rule_blocks(out, tier):
         return
     for r in roots:
         annotate_lines(r)
+    with open(os.path.join(out.repo, BIN, "serializers.h")) as f:
+        _SRC[0] = f.read()
     fns = dict(free_functions(roots))
     wb, rb = fns.get("WriteBlock"), fns.get("ReadBlock")
     if wb is None or rb is None:
         out.undecided(rid, "WriteBlock/ReadBlock", rel, "not found")
         return
-    ops = op_signature(wb)
+    traces = op_traces(wb)
     first = None
     for x in walk(body_of(wb)):
         if x.get("kind") == "CallExpr" and callee_name(x).endswith("WriteInteger"):
             first = txt((x.get("inner") or [])[2]) if len(x.get("inner") or []) > 2 else None
             break
-    out.check(ops == ["Integer", "Element"] and first in ("1", "1U"), rid, "WriteBlock/count then element", "%s:%d" % (rel, wb.get("_line", 0)),
-              "writes the block count 1, then the element", "WriteBlock does not write `1` followed by the element: ops=%s count=%s" % (ops, first))
-    body = body_of(rb).get("inner", []) or []
-    ok_refill = ok_end = ok_dec = False
-    if body and body[0].get("kind") == "IfStmt":
-        c = txt(body[0]["inner"][0]).replace(" ", "")
-        if c == "current_block_remaining==0":
-            inner_ops = [callee_name(x).split("::")[-1] for x in walk(body[0]["inner"][1]) if x.get("kind") == "CallExpr"]
-            ok_refill = "ReadInteger" in inner_ops
-            for x in walk(body[0]["inner"][1]):
-                if x.get("kind") == "IfStmt" and txt(x["inner"][0]).replace(" ", "") == "current_block_remaining==0":
-                    ok_end = any(y.get("kind") == "ReturnStmt" and "false" in txt(y) for y in walk(x["inner"][1]))
-    for st in body:
-        t = txt(st).replace(" ", "")
-        if t in ("current_block_remaining--", "--current_block_remaining", "current_block_remaining-=1"):
-            ok_dec = True
-    out.check(ok_refill, rid, "ReadBlock/refill only when empty", "%s:%d" % (rel, rb.get("_line", 0)), "a new block count is read only when current_block_remaining == 0", "ReadBlock does not refill the block count under `current_block_remaining == 0`")
-    out.check(ok_end, rid, "ReadBlock/zero count ends the stream", "%s:%d" % (rel, rb.get("_line", 0)), "a block count of 0 returns false", "a zero block count is not treated as the end of the stream")
-    out.check(ok_dec, rid, "ReadBlock/decrement by one", "%s:%d" % (rel, rb.get("_line", 0)), "one item per call", "current_block_remaining is not decremented by exactly one per item read")
+    out.check(traces == frozenset({(("Integer",), ("Element",))}) and first in ("1", "1U"), rid, "WriteBlock/count then element", "%s:%d" % (rel, wb.get("_line", 0)),
+              "writes the block count 1, then the element", "WriteBlock does not write `1` followed by the element: ops=%s count=%s" % (fmt_traces(traces), first))
+    # ReadBlock on its paths (helpers that are not serializer routines expanded in place)
+    helpers = {k: v for k, v in fns.items() if not re.match(r"^(Write|Read)(Integer|FloatingPoint|String|Date|Time|DateTime|Optional|Vector|Array|DynamicNDArray|NDArray|FixedNDArray|Map|Monostate|Enum|Flags|Block|BlocksIntoVector|TriviallySerializable)$", k)}
+    cp = CxxPaths(helpers)
+    var = "current_block_remaining"
+    paths = cp.paths(rb)
+    pos_rb = "%s:%d" % (rel, rb.get("_line", 0))
+    if cp.overflow or not paths:
+        out.undecided(rid, "ReadBlock/paths", pos_rb, "cannot enumerate the paths of ReadBlock")
+        return
+    ok_refill, ok_end, ok_dec, n_refill = True, True, True, 0
+    for p in paths:
+        refill_at = None
+        for i, (kind, t, nl) in enumerate(p.events):
+            tt = p.expand(t).replace(" ", "")
+            if kind == "call" and "ReadInteger(stream," + var in tt:
+                n_refill += 1
+                refill_at = (i, nl)
+                if not p.knows_zero(var, nl):
+                    ok_refill = False
+        reads_elem = any(kind == "call" and t.startswith("ReadElement(") for kind, t, nl in p.events)
+        if refill_at is not None:
+            # after the refill: a count of zero ends the stream without reading an element
+            later = CxxPath(p.lits[refill_at[1]:], [], p.outcome, p.env)
+            if later.knows_zero(var):
+                if reads_elem or p.outcome != "return" or (p.ret or "").strip() != "false":
+                    ok_end = False
+        if reads_elem:
+            decs = [t for kind, t, nl in p.events if kind == "step" and var in t]
+            if decs not in ([var + "--"], ["--" + var], [var + "-=1"]):
+                ok_dec = False
+            if p.outcome == "return" and (p.ret or "").strip() != "true":
+                ok_dec = False
+    # some path must exist on which a zero count is recognised
+    sees_zero = any(p.outcome == "return" and (p.ret or "").strip() == "false" for p in paths)
+    out.check(ok_refill and n_refill > 0, rid, "ReadBlock/refill only when empty", pos_rb, "a new block count is read only when current_block_remaining == 0", "ReadBlock does not refill the block count under `current_block_remaining == 0`")
+    out.check(ok_end and sees_zero, rid, "ReadBlock/zero count ends the stream", pos_rb, "a block count of 0 returns false", "a zero block count is not treated as the end of the stream")
+    out.check(ok_dec, rid, "ReadBlock/decrement by one", pos_rb, "one item per call", "current_block_remaining is not decremented by exactly one per item read")
 
 
 RULES = {
